@@ -17,10 +17,12 @@ from . import common as C
 ID = "C09"
 DRIVER = "drv_c09"
 STREAMS = {
-    "hist": {"relevant": True, "desc": "history of seek/read/tell on XorEncodedFile, every seek lands in [0, len(plain)]; read bytes and tell compared"},
+    "hist": {"relevant": True, "desc": "history of seek/read/tell on XorEncodedFile: seeks mostly in [0, len(plain)], some to negative targets "
+             "(ValueError / clamp to 0) or with an invalid whence; read bytes, tell and exceptions compared with io.BytesIO(plain)"},
     "histret": {"relevant": False, "desc": "same histories, additionally the value returned by seek (raw offset; not claimed by the property)"},
-    "histeof": {"relevant": True, "desc": "histories whose seeks may land up to 12 bytes past the end (>= 0); read bytes and tell compared"},
-    "histwild": {"relevant": False, "desc": "histories with arbitrary seeks (negative logical/raw positions, far past EOF): model fidelity only"},
+    "histeof": {"relevant": True, "desc": "histories whose seeks may land up to 12 bytes past the end, some below 0; read bytes, tell, exceptions compared"},
+    "histwild": {"relevant": False, "desc": "histories with arbitrary seeks (far below 0, far past EOF) on views opened with a possibly wrong / "
+                 "out-of-file nonce offset: model fidelity only"},
     "nonce": {"relevant": False, "desc": "read_nonce() at an arbitrary raw position (internal function)"},
     "ino": {"relevant": True, "desc": "list(iter_nonce_offsets(fh, real_size, maxrange))"},
     "counter": {"relevant": False, "desc": "collections.Counter(xs).most_common() order (modelled CPython built-in)"},
@@ -30,16 +32,10 @@ STREAMS = {
     "detectfull": {"relevant": True, "desc": "from_file entirely modelled (C09.fromFileReal: real block scanner = C15 model, every buffer size)"},
     "detectlog": {"relevant": False, "desc": "from_file entirely modelled, plus its DEBUG log: eof_shellcode offsets, nonce offsets, "
                   "candidates tried in order with their counts (internal observables; oracle = real_hits_characterised / detect_sound_real)"},
-    "histneg": {"relevant": False, "desc": "histories containing seeks whose logical target is negative (into stub/nonce/size, or before "
-                "raw offset 0) on all three file kinds; seek return values, tell and reads compared (oracle = seek_exact / "
-                "read_advances_everywhere; with NEGSEEK_IS_DEFECT the oracle is the plain file instead)"},
+    "histneg": {"relevant": True, "desc": "histories built around seeks whose logical target is negative (just below 0, inside what used to be "
+                "the stub/header, before raw offset 0) on all three file kinds; seek return values (shifted), tell, reads and exceptions "
+                "compared with io.BytesIO(plain) (history_refines_all_seeks / trace_refines_all_seeks; fix 13416c7)"},
 }
-# The view lets a seek land at a negative logical position (inside the stub / nonce / size dword) where a plain file raises
-# or clamps (Props/C09.lean: negative_seek_exact, history_refines_all_seeks_false).  Reported as candidate finding
-# `C09-negative-seek-enters-header`; while it is not listed in known_findings.json the histneg oracle states the ACTUAL behaviour.
-# Set to True (after adding the finding) to judge histneg against the plain file: every such input then maps to the known id.
-NEGSEEK_IS_DEFECT = False
-NEGSEEK_ID = "C09-negative-seek-enters-header"
 TRUSTED = [
     "tools/harness/c09.py generators, adapters and the BytesIO replay oracle; line protocol parsing in lean/CsVerif/Driver/C09.lean",
     "Model/PyFile.lean (io.BytesIO / buffered and unbuffered OS files) and C20.xor are modelled, validated by the hist*/nonce streams on "
@@ -49,11 +45,11 @@ TRUSTED = [
 ]
 ASSUMPTIONS = [
     "raw layout stub ++ nonce(4) ++ size(4) ++ enc; the refinement theorem covers histories whose seeks land at logical positions >= 0, "
-    "including beyond the end; seeks below logical 0 are characterised exactly (seek_exact, negative_seek_exact) but do NOT refine a "
-    "plain file: the view enters the stub/header instead of raising/clamping (stream histneg)",
+    "any seek (any integer offset, whence 0/1/2/other) and any read; seek targets stay below the file-offset limits that Model/PyFile.lean "
+    "does not model (raw target < 2**63 on BytesIO, < the filesystem's maximum file offset — 2**44 here — on OS files)",
     "nonce_offset is a natural number; read(n) is called with an int or None",
 ]
-RULE = ("exhaustive (len<=9) x (seek p, read n, tell, read m, tell) + seeded random histories on BytesIO / buffered / unbuffered temp files; "
+RULE = ("exhaustive (len<=9) x (seek p, read n, tell, read m, tell) + seeded random histories (incl. negative seek targets, invalid whence) on BytesIO / buffered / unbuffered temp files; "
         "distinct = hash of input line; non-trivial = at least one read returned bytes (hist*), a candidate was found (ino/detect*), "
         "an MZ offset was returned (mz)")
 
@@ -209,10 +205,17 @@ def rand_history(rng, plen: int, nops: int, mode: str):
                 t = rng.randrange(plen, hi + 1)
             if mode != "wild" and rng.random() < 0.25:
                 t = rng.choice([0, min(3, plen), min(4, plen), min(5, plen), plen, max(plen - 1, 0), max(plen - 3, 0)])
+            if mode != "wild" and rng.random() < 0.14:
+                t = -rng.choice([1, 1, 2, 3, 4, 5, 7, 8, 9, 12, 13, 20, 72, 1031, 5000])     # below the start of the decoded bytes
             wh = rng.choice([0, 0, 1, 2])
             off = t if wh == 0 else (t - p if wh == 1 else t - plen)
+            if mode != "wild" and rng.random() < 0.02:
+                wh = rng.choice([3, 4, 7])                                                  # invalid whence: ValueError, nothing moves
             ops.append(("s", off, wh))
-            p = max(t, 0)
+            if wh > 2 or (wh == 0 and t < 0):
+                pass                                                                        # raises, position unchanged
+            else:
+                p = max(t, 0)
         elif r < 0.85:
             n = rng.choice(NS + [plen + 3, plen, rng.randrange(0, plen + 2)])
             if plen > 64 and rng.random() < 0.5:
@@ -631,43 +634,41 @@ class _LogCapture(logging.Handler):
 # --------------------------------------------------------------------------------------
 
 
-def replay_plain(plain: bytes, ops):
-    """outputs of the same history on an ordinary read-only file; also says whether every seek stayed in [0, len]."""
+def replay_plain(plain: bytes, ops, base=None):
+    """outputs of the same history on io.BytesIO(plain) — the property's reference object; a raising operation is recorded
+    as e<Exc> and the history goes on; with `base` the value returned by seek is reported shifted by nonce_offset + 8"""
+    from check import canon_exc
+
     f = io.BytesIO(plain)
-    outs, in_range, nonneg = [], True, True
+    outs = []
     for op in ops:
-        if op[0] == "s":
-            base = 0 if op[2] == 0 else (f.tell() if op[2] == 1 else len(plain))
-            t = base + op[1]
-            if t < 0:
-                nonneg = False
-                return outs, False, False
-            if t > len(plain):
-                in_range = False
-            f.seek(t)
-            outs.append("s")
-        elif op[0] == "r":
-            n = op[1]
-            outs.append("b" + f.read(-1 if n is None else n).hex())
-        else:
-            outs.append(f"p{f.tell()}")
-    return outs, in_range, nonneg
+        try:
+            if op[0] == "s":
+                r = f.seek(op[1], op[2])
+                outs.append("s" if base is None else f"s{r + base}")
+            elif op[0] == "r":
+                n = op[1]
+                outs.append("b" + f.read(-1 if n is None else n).hex())
+            else:
+                outs.append(f"p{f.tell()}")
+        except Exception as e:  # noqa: BLE001
+            outs.append("e" + canon_exc(e))
+    return outs
 
 
-def history_verdict(line):
+def history_verdict(line, with_ret: bool):
     w = line.split()
     off, raw, ops = int(w[2]), C.unhx(w[3]), parse_ops(w[4])
     plain = roll_decode(raw[off + 8:], raw[off:off + 4])
-    return replay_plain(plain, ops)
+    return replay_plain(plain, ops, off + 8 if with_ret else None)
 
 
 def oracle(stream, line, out):
     w = line.split()
     if stream in ("hist", "histeof"):
-        exp, _in_range, nonneg = history_verdict(line)
-        if not nonneg:
-            return None          # a seek below 0: outside the property
-        return out.split(" ") == exp
+        return out.split(" ") == history_verdict(line, False)
+    if stream == "histneg":
+        return out.split(" ") == history_verdict(line, True)
     if stream == "histret":
         return None
     if stream == "ino":
@@ -682,8 +683,6 @@ def oracle(stream, line, out):
             return None
         r = py_mz(roll_decode(raw[c + 8:], raw[c:c + 4]))
         return out == ("ok none" if r is None else f"ok {r}")
-    if stream == "histneg":
-        return negseek_plain_verdict(line, out) if NEGSEEK_IS_DEFECT else negseek_actual_verdict(line, out)
     if stream == "detectlog":
         return detectlog_verdict(line, out)
     if stream in ("detect", "detectm", "detectfull"):
@@ -734,78 +733,9 @@ def detectlog_verdict(line, out):
     return bool(tried) and tried[-1] == res and verdicts[-1] and not any(verdicts[:-1])
 
 
-def negseek_actual_verdict(line, out):
-    """independent statement of seek_exact / read_advances_everywhere: raw-offset arithmetic only"""
-    w = line.split()
-    kind, off, raw, ops = w[1], int(w[2]), C.unhx(w[3]), parse_ops(w[4])
-    base, q = off + 8, off + 8
-    plain = roll_decode(raw[base:], raw[off:off + 4])
-    outs = out.split(" ")
-    if len(outs) != len(ops):
-        return False
-    for op, o in zip(ops, outs):
-        if op[0] == "s":
-            r = op[1] + base if op[2] == 0 else (q + op[1] if op[2] == 1 else len(raw) + op[1])
-            if r >= 0:
-                exp, q = f"s{r}", r
-            elif op[2] == 0:
-                exp = "eValueError" if kind == "B" else "eOSError"
-            elif kind == "B":
-                exp, q = "s0", 0
-            else:
-                exp = "eOSError"
-            if o != exp:
-                return False
-        elif op[0] == "t":
-            if o != f"p{q - base}":
-                return False
-        else:
-            if not o.startswith("b"):
-                return False
-            data, n = bytes.fromhex(o[1:]), op[1]
-            if n is not None and n >= 0 and len(data) > n:
-                return False
-            if q >= base:                                        # at a logical position >= 0 the bytes are the plaintext slice
-                lp = q - base
-                if data != (plain[lp:] if n is None or n < 0 else plain[lp:lp + n]):
-                    return False
-            q += len(data)                                       # the position advances by exactly what was returned
-    return True
-
-
-def negseek_plain_verdict(line, out):
-    """the property text: the same history on a plain file of the same kind over the decoded bytes (seek values shifted)"""
-    from check import canon_exc
-
-    w = line.split()
-    kind, off, raw, ops = w[1], int(w[2]), C.unhx(w[3]), parse_ops(w[4])
-    pf = open_kind(kind, roll_decode(raw[off + 8:], raw[off:off + 4]))
-    try:
-        exp = []
-        for op in ops:
-            try:
-                if op[0] == "s":
-                    exp.append(f"s{pf.seek(op[1], op[2]) + off + 8}")
-                elif op[0] == "r":
-                    exp.append("b" + pf.read(-1 if op[1] is None else op[1]).hex())
-                else:
-                    exp.append(f"p{pf.tell()}")
-            except Exception as e:  # noqa: BLE001
-                exp.append("e" + canon_exc(e))
-        return out.split(" ") == exp
-    finally:
-        pf.close()
-
-
-def known(stream, line, known_list):
-    if stream == "histneg" and NEGSEEK_IS_DEFECT and any(k["id"] == NEGSEEK_ID for k in known_list):
-        return NEGSEEK_ID
-    return None
-
-
 def nontrivial(stream, line, out):
     if stream == "histneg":
-        return any(t.startswith("p-") for t in out.split(" ")) or any(t.startswith("e") for t in out.split(" "))
+        return any(t.startswith("e") or (t.startswith("b") and len(t) > 1) for t in out.split(" "))
     if stream == "detectlog":
         return out.split()[-2] != "l"                            # at least one candidate was tried
     if out.startswith("exc "):
